@@ -423,6 +423,8 @@ type c26Fixture struct {
 	cur      c26Caller
 	routes   []c26Route
 	unpinned map[string]bool
+	differ   map[string]string
+	sampled  map[string]bool
 }
 
 type c26Route struct {
@@ -434,7 +436,7 @@ type c26Route struct {
 var c26VarRe = regexp.MustCompile(`\{[^}]+\}`)
 
 func c26Setup(t *testing.T, r *eng.Run) *c26Fixture {
-	f := &c26Fixture{r: r, unpinned: map[string]bool{}}
+	f := &c26Fixture{r: r, unpinned: map[string]bool{}, differ: map[string]string{}, sampled: map[string]bool{}}
 	root := t.TempDir()
 	dirs.SetRootDir(root)
 	if err := os.MkdirAll(filepath.Dir(dirs.SnapdSocket), 0755); err != nil {
@@ -643,6 +645,9 @@ func (f *c26Fixture) checkOne(rt c26Route, method string, c c26Caller, cnt *c26C
 	// law 2: the declared (pinned) level
 	if ps, ok := c26Pinned[method+" "+rt.name]; ok {
 		pl := c26ParseLevel(ps)
+		if pl.String() != live.String() {
+			f.differ[method+" "+rt.name] = fmt.Sprintf("declared (pinned) [%s], table carries [%s]", pl, live)
+		}
 		if pallowed, pwhy := c26Allowed(pl, c, cred); res.Ran && !pallowed {
 			r.Violation(c26CaseKey("served-beyond-declared-level", method, rt.name, c), fmt.Sprintf("%s %s is declared [%s] but the table now carries [%s] and the request was served: %s", method, rt.url, pl, live, pwhy), cas)
 		}
@@ -663,6 +668,12 @@ func (f *c26Fixture) checkOne(rt c26Route, method string, c c26Caller, cnt *c26C
 	// law 5: polkit is asked about the real peer and the declared action only
 	for _, call := range f.obs.polkitCalls {
 		cnt.polkitConsulted++
+		if !f.sampled["polkit-"+c.Polkit] && c.Addr == "wf" {
+			f.sampled["polkit-"+c.Polkit] = true
+			if c.Polkit == "allow" || c.Polkit == "dismissed" {
+				r.Sample(map[string]interface{}{"case": cas, "served": res.Ran, "status": res.Status, "polkit_asked": call})
+			}
+		}
 		want := ""
 		if cred != nil {
 			want = fmt.Sprintf("pid=%d uid=%d action=%s", cred.Pid, cred.Uid, live.Polkit)
@@ -684,6 +695,10 @@ func (f *c26Fixture) checkOne(rt c26Route, method string, c c26Caller, cnt *c26C
 			}
 			if (live.Kind == "ifopen" || live.Kind == "ifauth") && cred.Socket == dirs.SnapSocket {
 				cnt.ifaceGranted++
+				if !f.sampled["iface"] && c.Conns[0] != c.Conns[1] {
+					f.sampled["iface"] = true
+					r.Sample(map[string]interface{}{"case": cas, "served": true, "handler_saw_remote_address": f.obs.ranAddr})
+				}
 				act := c26ActiveIfaces(c)
 				for _, i := range live.Ifaces {
 					if act[i] {
@@ -849,7 +864,7 @@ func TestVerifC26(t *testing.T) {
 									for _, sn := range snapNames {
 										c := c26Caller{Addr: addr, Socket: sock, Uid: uid, User: user, Polkit: pk, SnapName: sn, Conns: scen}
 										f.checkOne(rt, method, c, &cnt, false)
-										if cnt.evals%50021 == 1 {
+										if cnt.evals%200003 == 1 {
 											r.Sample(c26Case{Method: method, Path: rt.name, Caller: c})
 										}
 									}
@@ -880,13 +895,16 @@ func TestVerifC26(t *testing.T) {
 
 	r.Add("evaluations", cnt.evals+rtc.cases)
 	r.Add("distinct_nontrivial", cnt.nontrivial)
+	for k, v := range f.differ {
+		r.Info("level_differs_from_pinned: "+k, v)
+	}
 	var unp []string
 	for k := range f.unpinned {
 		unp = append(unp, k)
 	}
 	sort.Strings(unp)
-	if len(unp) > 0 {
-		r.Info("unpinned", unp)
+	for _, k := range unp {
+		r.Info("unpinned: "+k, "judged against the live table only")
 	}
 	r.Info("bounds", map[string]int{"endpoints": len(f.routes), "methods": len(c26Methods), "address_forms": len(c26AddrForms), "sockets": len(c26Sockets), "uids": len(c26Uids),
 		"authorization_kinds": len(c26Users), "polkit_answers": len(c26Polkits), "connection_scenarios_gated": len(allScen), "connection_scenarios_other": 2, "pinned_levels": len(c26Pinned)})
